@@ -1,7 +1,7 @@
 (* C42 — proofs: CAS register (linearizability over all schedules, winners),
    ranged reads = requested window, concatenation, oracle on the model. *)
 From Coq Require Import NArith ZArith List Bool Lia PeanoNat.
-From Dolt Require Import Base.Str Gen.C42Consts C42.Model C42.Spec C42.NbsModel C42.Corr.
+From Dolt Require Import Base.Str Gen.C42Consts C42.Model C42.Spec C42.NbsModel C42.GitModel C42.Corr.
 Import ListNotations.
 
 (* ---- regenerated constants the harness / generator rely on ---------------- *)
@@ -876,21 +876,232 @@ Proof. intros H l. induction l as [|x t IH]; [reflexivity|]. cbn [list_eqb]. rew
 Lemma nobs_eqb_refl x : nobs_eqb x x = true.
 Proof. unfold nobs_eqb. rewrite !N.eqb_refl, beq_bytes_refl. reflexivity. Qed.
 
+(* ======================================================================== *)
+(* GitBlobstore: ranges, and the lease-retry loop of CheckAndPutManifest      *)
+(* ======================================================================== *)
+Local Open Scope Z_scope.
+
+Theorem range_spec_git : forall val ver off len,
+  0 <= len -> in_range (zlen val) off = true ->
+  git_get val ver off len = RBytes (spec_slice val off len) (N.of_nat (length val)) ver.
+Proof.
+  intros val ver off len Hl Hr. unfold git_get.
+  destruct (is_all_range off len) eqn:A.
+  - unfold is_all_range in A. apply andb_prop in A as [A1 A2].
+    apply Z.eqb_eq in A1. apply Z.eqb_eq in A2. subst off len. reflexivity.
+  - pose proof (in_range_bounds _ _ (zlen_nonneg val) Hr) as Hb.
+    unfold positive_range. fold (win_start (zlen val) off).
+    set (a := win_start (zlen val) off) in *. set (n := zlen val) in *.
+    assert (Hd : length (skipn (Z.to_nat a) val) = Z.to_nat (n - a)) by (apply skipn_len; exact Hb).
+    destruct (Z.ltb_spec a 0) as [X|_]; [lia|]. destruct (Z.ltb_spec n a) as [X|_]; [lia|]. cbn [orb].
+    rewrite spec_slice_window. fold a. unfold window. rewrite Z.gtb_ltb.
+    destruct (Z.eqb_spec len 0) as [L0|L0].
+    + rewrite orb_true_r. destruct (Z.ltb_spec (n - a) 0) as [X|_]; [lia|].
+      f_equal. apply firstn_all2. fold n; fold a. rewrite Hd.
+      destruct (Z.eqb_spec (n - a) 0); destruct (Z.ltb_spec n (a + (n - a))); lia.
+    + rewrite orb_false_r. destruct (Z.ltb_spec n (a + len)) as [G|G].
+      * destruct (Z.ltb_spec (n - a) 0) as [X|_]; [lia|]. f_equal.
+        fold n; fold a.
+        rewrite firstn_all2 by (rewrite Hd; destruct (Z.eqb_spec (n - a) 0); destruct (Z.ltb_spec n (a + (n - a))); lia).
+        symmetry. apply firstn_all2. rewrite Hd. lia.
+      * destruct (Z.ltb_spec len 0) as [X|_]; [lia|]. f_equal.
+        destruct (Z.eqb_spec len 0) as [X|_]; [contradiction|].
+        fold n; fold a. destruct (Z.ltb_spec n (a + len)) as [X|_]; [lia|]. f_equal. lia.
+Qed.
+
+Theorem range_out_of_range_git : forall val ver off len,
+  0 <= len -> in_range (zlen val) off = false -> git_get val ver off len = RErr.
+Proof.
+  intros val ver off len Hl Hr. pose proof (zlen_nonneg val) as Hn.
+  assert (Ho : off < - zlen val \/ zlen val < off).
+  { unfold in_range in Hr. destruct (Z.leb_spec (- zlen val) off); destruct (Z.leb_spec off (zlen val)); cbn in Hr; try discriminate; lia. }
+  unfold git_get.
+  assert (A : is_all_range off len = false).
+  { unfold is_all_range. destruct (Z.eqb_spec off 0); [lia|reflexivity]. }
+  rewrite A. unfold positive_range.
+  set (o := if off <? 0 then zlen val + off else off).
+  assert (Hob : o < 0 \/ zlen val < o) by (unfold o; destruct (Z.ltb_spec off 0); lia).
+  destruct (Z.ltb_spec o 0); destruct (Z.ltb_spec (zlen val) o); cbn [orb]; try reflexivity. lia.
+Qed.
+Local Close Scope Z_scope.
+
+Lemma get_ok_git val v off len : (0 <= len)%Z -> get_ok val v off len (git_get val v off len) = true.
+Proof.
+  intro Hl. destruct (in_range (zlen val) off) eqn:R.
+  - rewrite range_spec_git by assumption. cbn [get_ok]. rewrite beq_bytes_refl, !N.eqb_refl. reflexivity.
+  - rewrite range_out_of_range_git by assumption. cbn [get_ok]. rewrite R. reflexivity.
+Qed.
+
+Lemma spec_step_git s o s' r : git_step s o = (s', r) -> spec_step s o r = Some s'.
+Proof.
+  intro E. destruct o as [k off len|k d f|e d f|k srcs f]; try (exact (spec_step_model Local _ _ _ _ E)).
+  cbn [git_step] in E. cbn [spec_step].
+  destruct (Z.ltb_spec len 0) as [Ln|Ln].
+  - inversion E; reflexivity.
+  - destruct (s k) as [[v val]|]; inversion E; subst s' r; [|reflexivity].
+    rewrite get_ok_git by exact Ln. reflexivity.
+Qed.
+
+Lemma spec_trace_git ops : forall s, spec_trace s (git_trace s ops) = true.
+Proof.
+  induction ops as [|o t IH]; intro s; cbn [git_trace]; [reflexivity|].
+  destruct (git_step s o) as [s' r] eqn:E. cbn [spec_trace].
+  rewrite (spec_step_git _ _ _ _ E). apply IH.
+Qed.
+
+Lemma git_trace_ops ops : forall s, map fst (git_trace s ops) = ops.
+Proof.
+  induction ops as [|o t IH]; intro s; cbn [git_trace]; [reflexivity|].
+  destruct (git_step s o) as [s' r]. cbn [map fst]. rewrite IH. reflexivity.
+Qed.
+
+Lemma not_push_no_write e : is_push e = false -> man_write e = None.
+Proof.
+  destruct e as [o r]. destruct o as [k off len|k d f|e d f|k srcs f]; destruct r; cbn [is_push man_write]; intro H;
+    try reflexivity; discriminate.
+Qed.
+
+Lemma head_not_moved_no_writes h : head_moved h = false -> man_writes h = [].
+Proof.
+  induction h as [|e t IH]; [reflexivity|]. unfold head_moved. cbn [existsb man_writes]. intro H.
+  apply orb_false_elim in H as [H1 H2]. rewrite (not_push_no_write _ H1). apply IH. exact H2.
+Qed.
+
+(* The retry loop IS one atomic compare-and-swap, executed on the remote state that
+   contains everything the other clients pushed before its last attempt: for every
+   sequence of foreign histories between the attempts, the client's result and
+   effect are those of [step] at that state — success only if the expected version
+   is the version stored at the successful push; no foreign push is undone. *)
+Theorem git_cap_retry_is_cas : forall (foreign : list (list op)) first s e d f,
+  let r := git_cap_loop true first s e f foreign in
+  step Local (fst r) (OCap e d f) = (git_cap_result d f r, snd r).
+Proof.
+  induction foreign as [|sigma rest IH]; intros first s e d f; cbn [git_cap_loop]; rewrite orb_true_r; cbn [andb];
+    destruct (N.eqb_spec e (cur_ver s manifest_key)) as [He|He]; cbn [negb].
+  - cbv zeta. cbn [fst snd git_cap_result]. unfold git_cap_result. cbn [fst snd].
+    apply (proj1 (cap_succeeds_iff_expected_is_current Local s e d f)). exact He.
+  - cbv zeta. unfold git_cap_result. cbn [fst snd].
+    apply (proj2 (cap_succeeds_iff_expected_is_current Local s e d f)). exact He.
+  - destruct (head_moved (trace Local s sigma)) eqn:M.
+    + apply IH.
+    + cbv zeta. unfold git_cap_result. cbn [fst snd].
+      apply (proj1 (cap_succeeds_iff_expected_is_current Local _ e d f)).
+      unfold cur_ver. rewrite (no_writes_same Local sigma s (head_not_moved_no_writes _ M)). exact He.
+  - cbv zeta. unfold git_cap_result. cbn [fst snd].
+    apply (proj2 (cap_succeeds_iff_expected_is_current Local s e d f)). exact He.
+Qed.
+
+Corollary git_cap_success_only_if_expected_at_push : forall foreign first s e f sp f',
+  git_cap_loop true first s e f foreign = (sp, RVer f') -> e = cur_ver sp manifest_key.
+Proof.
+  intros foreign first s e f sp f' H.
+  pose proof (git_cap_retry_is_cas foreign first s e [] f) as G. cbv zeta in G. rewrite H in G. cbn [fst snd] in G.
+  destruct (N.eq_dec e (cur_ver sp manifest_key)) as [Y|Y]; [exact Y|].
+  rewrite (proj2 (cap_succeeds_iff_expected_is_current Local sp e [] f) Y) in G. inversion G.
+Qed.
+
+(* The variant that validates the expected version only on the first attempt (what a
+   "validate and hash once, rebuild on retry" rewrite does) is NOT a compare-and-swap:
+   a foreign CheckAndPut between the fetch and the push is overwritten and success
+   is reported although the stored version was not the expected one. *)
+Theorem git_cap_validate_once_refuted :
+  exists s e f (foreign : list (list op)),
+    let r := git_cap_loop false true s e f foreign in
+    snd r = RVer f /\ e <> cur_ver (fst r) manifest_key.
+Proof.
+  exists (upd empty_store manifest_key (1, [1]))%N, 1%N, 3%N, [[OCap 1 [2] 2]]%N.
+  vm_compute. split; [reflexivity|discriminate].
+Qed.
+
+(* ======================================================================== *)
+(* Get returns the (version, contents) of ONE store state                     *)
+(* ======================================================================== *)
+Theorem get_pair_is_a_state : forall b s v val,
+  s manifest_key = Some (v, val) ->
+  snd (step b s (OGet manifest_key 0 0)) = RBytes val (N.of_nat (length val)) v.
+Proof.
+  intros b s v val H. cbn [step]. cbn [Z.ltb Z.compare]. rewrite H. destruct b; reflexivity.
+Qed.
+
+Lemma step_pair_effect b s o s1 r t :
+  step b s o = (s1, r) ->
+  (forall srcs f, o <> OCat manifest_key srcs f) ->
+  (s1 manifest_key = s manifest_key /\ written_pairs ((o, r) :: t) = written_pairs t)
+  \/ exists f d, s1 manifest_key = Some (f, d) /\ written_pairs ((o, r) :: t) = (f, d) :: written_pairs t.
+Proof.
+  intros E NC. destruct o as [k off len|k d f|e d f|k srcs f]; cbn [step] in E.
+  - left. assert (s1 = s) as -> by (destruct (len <? 0)%Z; [|destruct (s k) as [[v val]|]]; inversion E; reflexivity).
+    split; [reflexivity|]. destruct r; reflexivity.
+  - inversion E; subst s1 r. cbn [written_pairs]. destruct (N.eqb_spec k manifest_key) as [->|Hk].
+    + right. exists f, d. split; [apply upd_same|reflexivity].
+    + left. split; [|reflexivity]. apply upd_other. intro X; apply Hk; symmetry; exact X.
+  - rewrite cap_check_spec in E. destruct (N.eqb e (cur_ver s manifest_key)); inversion E; subst s1 r.
+    + right. exists f, d. split; [apply upd_same|reflexivity].
+    + left. split; reflexivity.
+  - assert (Hk : k <> manifest_key) by (intros ->; exact (NC srcs f eq_refl)).
+    left. assert (Hs : s1 manifest_key = s manifest_key).
+    { destruct b; [|destruct (forallb (present s) srcs)]; inversion E; subst s1 r; try reflexivity;
+        apply upd_other; intro X; apply Hk; symmetry; exact X. }
+    split; [exact Hs|]. destruct r; reflexivity.
+Qed.
+
+(* every manifest state of a history (without Concatenate onto the manifest key) is
+   the initial one or a pair installed by a successful write of that history: these
+   are the only pairs a Get can return *)
+Theorem manifest_pair_was_written : forall b ops s,
+  (forall o srcs f, In o ops -> o <> OCat manifest_key srcs f) ->
+  final b s ops manifest_key = s manifest_key
+  \/ exists f d, In (f, d) (written_pairs (trace b s ops)) /\ final b s ops manifest_key = Some (f, d).
+Proof.
+  intros b ops. induction ops as [|o t IH]; intros s NC; cbn [final trace]; [left; reflexivity|].
+  destruct (step b s o) as [s1 r] eqn:E. cbn [fst].
+  assert (NCt : forall o' srcs f, In o' t -> o' <> OCat manifest_key srcs f) by (intros o' srcs f Hi; apply NC; right; exact Hi).
+  assert (NCo : forall srcs f, o <> OCat manifest_key srcs f) by (intros srcs f; apply NC; left; reflexivity).
+  destruct (step_pair_effect b s o s1 r (trace b s1 t) E NCo) as [[Hs Hw]|[f [d [Hs Hw]]]]; rewrite Hw;
+    destruct (IH s1 NCt) as [Hf|[f' [d' [Hi Hf]]]].
+  - left. rewrite Hf. exact Hs.
+  - right. exists f', d'. split; assumption.
+  - right. exists f, d. split; [left; reflexivity|]. rewrite Hf. exact Hs.
+  - right. exists f', d'. split; [right; exact Hi|exact Hf].
+Qed.
+
+Lemma mem_pair_in p l : In p l -> mem_pair p l = true.
+Proof.
+  intro H. unfold mem_pair. apply existsb_exists. exists p. split; [exact H|].
+  rewrite N.eqb_refl, beq_bytes_refl. reflexivity.
+Qed.
+
+Lemma get_pair_consistent_refl l : get_pair_consistent l l = true.
+Proof. unfold get_pair_consistent. apply forallb_forall. intros p H. apply mem_pair_in. exact H. Qed.
+
 (* the oracle holds on every model run: blobstore cases under measured version
-   freshness; NBS cases whenever the history only names existing clients *)
+   freshness; git cases under the measured version/contents relation; NBS cases
+   whenever the history only names existing clients *)
 Theorem oracle_on_model : forall i : input,
   match i with
   | IBlob b sch => fresh_trace [] (sched_trace b empty_store sch) = true
   | INbs n _ ops => forallb (fun io => Nat.ltb (fst io) n) ops = true
+  | IGit sch => ver_content_ok (written_pairs (git_trace empty_store (map snd sch))) = true
+  | IStress _ _ => True
   end ->
   oracle i (model_obs i) = true.
 Proof.
-  intros [b sch|n univ ops] H; cbn [oracle model_obs].
+  intros [b sch|n univ ops|sch|b sch] H; cbn [oracle model_obs].
   - apply blob_oracle_on_model. exact H.
   - rewrite !bs_store_same_semantics. rewrite !list_eqb_refl by exact nobs_eqb_refl.
     rewrite map_length. unfold nrun_local. rewrite nrun_length.
     + rewrite Nat.eqb_refl. reflexivity.
     + unfold init_clients. rewrite repeat_length. exact H.
+  - unfold git_oracle. set (ops := map snd sch) in *.
+    assert (Hc : combine ops (map snd (git_trace empty_store ops)) = git_trace empty_store ops).
+    { rewrite <- (git_trace_ops ops empty_store) at 1. apply combine_fst_snd. }
+    rewrite Hc, H, spec_trace_git, !andb_true_r.
+    rewrite map_length. rewrite <- (git_trace_ops ops empty_store) at 2. rewrite map_length. apply Nat.eqb_refl.
+  - unfold stress_oracle, blob_model, sched_trace. set (ops := map snd sch) in *.
+    assert (Hc : combine ops (map snd (trace b empty_store ops)) = trace b empty_store ops).
+    { rewrite <- (trace_ops b ops empty_store) at 1. apply combine_fst_snd. }
+    rewrite Hc, spec_trace_model, get_pair_consistent_refl, !andb_true_r.
+    rewrite map_length. rewrite <- (trace_ops b ops empty_store) at 2. rewrite map_length. apply Nat.eqb_refl.
 Qed.
 
 (* non-vacuity: a schedule with two clients racing on the same expected version,
